@@ -306,3 +306,55 @@ pub fn root_biguint(x: &[u64], n: &[u64]) -> Result<(Vec<u64>, bool), String> {
 		.map_err(|e| err_name(&e))?;
 	Ok((biguint_limbs(&r.value), r.exact))
 }
+
+// ---- complex values: both parts given raw, each a rational or a multiple of pi ----
+
+fn put_real(out: &mut Vec<u8>, r: &RawRat, pi: bool) {
+	out.push(if pi { 2 } else { 1 });
+	put_rat(out, r.negative, &r.num, &r.den, false);
+}
+
+/// `Value::format` of the unitless complex value `re + im i`; `re_pi` / `im_pi`
+/// make the part `Pattern::Pi(..)` (a multiple of pi) instead of `Simple(..)`.
+/// Flag, base and style are taken from `re`. The text includes `approx. `.
+pub fn format_complex(
+	re: &RawRat,
+	re_pi: bool,
+	im: &RawRat,
+	im_pi: bool,
+	style: Style,
+	comma: bool,
+) -> Result<String, String> {
+	if re.num.is_empty() || re.den.is_empty() || im.num.is_empty() || im.den.is_empty() {
+		return Err("HookBadArgument".to_string());
+	}
+	let mut b = Vec::new();
+	b.extend_from_slice(&1u64.to_be_bytes());
+	put_real(&mut b, re, re_pi);
+	put_real(&mut b, im, im_pi);
+	put_rat(&mut b, false, &[1], &[1], false);
+	b.extend_from_slice(&0u64.to_be_bytes());
+	b.push(u8::from(re.exact));
+	match re.base_tag {
+		1..=3 => b.push(re.base_tag),
+		4 | 5 => {
+			b.push(re.base_tag);
+			b.push(re.base);
+		}
+		_ => return Err("HookBadArgument".to_string()),
+	}
+	match style.tag {
+		1..=4 | 7 => b.push(style.tag),
+		5 | 6 => {
+			b.push(style.tag);
+			b.extend_from_slice(&style.n.to_be_bytes());
+		}
+		_ => return Err("HookBadArgument".to_string()),
+	}
+	b.push(1);
+	let mut rd = &b[..];
+	let v = Number::deserialize(&mut rd).map_err(|e| format!("HookCodec{}", err_name(&e)))?;
+	let c = ctx(comma);
+	let f = v.format(&c, &Never).map_err(|e| err_name(&e))?;
+	Ok(f.to_string())
+}
